@@ -683,6 +683,12 @@ func (s *levelsController) subcompact(it y.Iterator, kr keyRange, cd compactDef,
 	// Check overlap of the top level with the levels which are not being
 	// compacted in this compaction.
 	hasOverlap := s.checkOverlap(cd.allTables(), cd.nextLevel.level+1)
+	if cd.thisLevel.level == 0 && cd.nextLevel.level == 0 {
+		// L0 tables which are not part of an L0 -> L0 compaction (too big, or on their way to
+		// the base level in a compaction which is still running) can hold older versions of
+		// the keys seen here, so deletion markers must be kept.
+		hasOverlap = true
+	}
 
 	// Pick a discard ts, so we can discard versions below this ts. We should
 	// never discard any versions starting from above this timestamp, because
